@@ -450,17 +450,27 @@ func (r *Runner) replayObligation(prop string, o *Obligation) (*ReplayRecord, st
 		return rec, path
 	}
 	fc := o.fc
-	if fc == nil || o.Status != "sat" {
+	if fc == nil || fc.decl == nil {
 		rec.Verdict = "no-model"
-		rec.Reason = "solver answered " + o.Status + " (no model)"
+		rec.Reason = "solver answered " + o.Status + " (not a function obligation)"
 		return save()
 	}
-	sess, first, err := startSession(o.QueryWith(true, o.byteAxioms()))
+	var sess *smtSession
+	var first string
+	var err error
+	if o.Status == "sat" {
+		sess, first, err = startSession(o.QueryWith(true, o.byteAxioms()))
+	} else {
+		// the solver could not decide the full query (quantified hypotheses): look for a candidate
+		// model with the quantified hypotheses dropped; it is trusted only if it replays
+		sess, first, err = startSession(o.queryOpts(true, nil, true))
+		rec.SolverOut += "\n(model search with quantified hypotheses dropped: candidate only)"
+	}
 	if err != nil || strings.TrimSpace(first) != "sat" {
 		if sess != nil {
 			sess.close()
 		}
-		sess, first, err = startSession(o.Query(true))
+		sess, first, err = startSession(o.queryOpts(true, nil, o.Status != "sat"))
 	}
 	if err != nil || strings.TrimSpace(first) != "sat" {
 		rec.Verdict = "no-model"
